@@ -7,6 +7,14 @@ CLAIMS = {
    text="Unbounded Lean theorems about the model of merge_extents / the FIEMAP paging loop / the SEEK_DATA-SEEK_HOLE loop (coverage preserved, only unit gaps added, input boundaries, ordered), tied to /repo by running libfs' real functions (linked by path) and the compiled model on the same enumerated/random extent lists and on real sparse files; the property's oracle is evaluated on the implementation's own answers.",
    note="Lean kernel; axioms ⊆ {propext, Classical.choice, Quot.sound}; hand-written model tied by differential runs (finite sampling); FIEMAP well-formedness and SEEK soundness are hypotheses, checked on every real answer of the run.",
    tech="Lean 4 theorems (induction over extent lists / fuel) + in-process differential correspondence", ref='§3 C19'),
+ 'C01': dict(
+   text="Lean theorems: for every file content/size, block size >= 1, every kernel that never moves more than asked nor past EOF and returns 0 only at EOF (all legal short counts), every legal data/hole or extent report and every order/multiplicity of parblock's block jobs, a copy loop that reports success leaves destination = source (createAllocate forgets any previous content). Tied to /repo by running the real CLI under a ptrace supervisor and replaying each file's data-moving calls, with the kernel's real (incl. clamped) answers, through the compiled model; byte oracle on every exit-0 run.",
+   note="Lean kernel, axioms ⊆ {propext, Classical.choice, Quot.sound}; KernSafe/KernLive, SEEK/FIEMAP soundness are hypotheses (checked on each traced answer); exit 0 ⇒ every loop succeeded is C04's claim; model tied by sampling.",
+   tech="Lean 4 theorems (induction on fuel, coverage algebra) + trace-replay correspondence under ptrace", ref='§3 C01'),
+ 'C09': dict(
+   text="Lean theorems over raw byte names and unbounded histories: the recogniser accepts exactly <name>.~N~ (N < 2^64), the chosen number exceeds all and the name is fresh, an overwrite preserves the old content under it, no existing backup is ever modified, auto iff a backup exists, history induction, and the old content exists under one of two names at every prefix of the step list (kill points). Tied to /repo by running histories of real invocations (non-UTF-8, prefix-related, backup-looking names; numbers near 2^64) against the model's runHistory and by SIGKILL before/after each mutating call.",
+   note="Lean kernel, standard axioms only; rename atomicity and SIGKILL semantics assumed; directory modelled as a finite map of regular files; model tied by sampling.",
+   tech="Lean 4 theorems (round-trip, induction over histories, prefix invariant) + history differential + kill enumeration", ref='§3 C09'),
 }
 PENDING = "check not built yet in this session (planned: Lean model + theorems + correspondence, see DESIGN.md §3); not claimed until it runs"
 ALL = [f'C{i:02d}' for i in range(1, 21)]
